@@ -64,7 +64,7 @@ Lemma parse_n_roundtrip {A} (ser : A -> result bytes) (item : bytes -> result (A
 Proof.
   intros Law. induction xs as [|x xs IH]; intros bss acc fuel rest F H L.
   - injection H as <-. destruct fuel; cbn [parse_n length Z.of_nat Z.leb Z.compare concat app];
-      now rewrite app_nil_r.
+      now rewrite rev_append_rev, !app_nil_r.
   - apply mapM_cons_inv in H as (y & ys' & Hy & H & ->). inversion F as [|? ? Px Fxs]; subst.
     destruct fuel as [|f]; [cbn [length] in L; lia|]. cbn [parse_n].
     destruct (Z.leb_spec (Z.of_nat (length (x :: xs))) 0) as [E|E]; [cbn [length] in E; lia|].
@@ -78,7 +78,8 @@ Lemma parse_wits_roundtrip {I} : forall (ins : list I) ws wss acc rest,
   parse_wits ins acc (concat wss ++ rest) = Ok (rev acc ++ ws, rest).
 Proof.
   induction ins as [|i ins IH]; intros ws wss acc rest L H.
-  - destruct ws; [|discriminate]. injection H as <-. cbn [parse_wits concat app]. now rewrite app_nil_r.
+  - destruct ws; [|discriminate]. injection H as <-. cbn [parse_wits concat app].
+    now rewrite rev_append_rev, !app_nil_r.
   - destruct ws as [|w ws]; [discriminate|]. apply mapM_cons_inv in H as (y & ys' & Hy & H & ->).
     cbn [parse_wits concat]. rewrite <- app_assoc. rewrite (witness_stack_roundtrip w y Hy). cbn [bind].
     rewrite (IH ws ys'); [|cbn [length] in L; lia|assumption]. cbn [rev]. now rewrite <- app_assoc.
